@@ -21,12 +21,24 @@ CHECKS = {
     "C03": ("in-critical-section channel-discipline monitor plus quiescence check for missed broadcasts; gated sample/block template",
             "Every critical section checks open/closed status of all wait channels handed out; Wait results are checked against the predicate log; blocked-but-satisfied waiters are judged at quiescence.",
             "The harness owns the guarded state and broadcasts with every change; gates only order goroutines.", "4/C03"),
+    "C11": ("single-winner / by-result agreement monitor + porcupine single-assignment model + interval oracle for PromiseContainer replacements; spinning decided by counting Broadcast critical sections; quiescence check for blocked awaiters",
+            "Concurrent setters/awaiters with every interruption source and sentinel error values; container awaiters are judged against the intervals in which each promise was current and resolved.",
+            "Values are unique per SetResult; two recorded known findings (container ignores errCh / cancelCh while a promise is pending) are matched by exact signature.", "4/C11"),
     "C12": ("linearizability checking of recorded histories with porcupine (stack and deque models) + conservation monitor, CAS windows widened by failpoint-style delays",
             "Thousands of short concurrent histories per run are checked against sequential models; large runs check that no element is lost or duplicated.",
             "porcupine v1.3.0 trusted; timeouts are inconclusive; histories are short (NP-complete checking).", "4/C12"),
+    "C15": ("porcupine register model (with custom-equality no-op rule) + SwapValue conservation + waiter return/quiescence monitors + gated sample/block template",
+            "Short concurrent histories are checked for linearizability; waiter results are checked against the condition, the write log and the interruption sources; blocked-but-satisfied waiters are judged at quiescence.",
+            "Unique written values identify the write a waiter observed; custom equalities include a non-reflexive (nil-safe) one.", "4/C15"),
+    "C16": ("call-entry/return monitor on the wrapped function (overlap, call-after-success, stale error) + caller result oracle + quiescence check",
+            "2-10 concurrent callers, scripted outcomes and latencies, cancellations including the initiator's while the function runs; MemoizeFunc total call count and result agreement.",
+            "The wrapped function stamps itself; blocked function calls are ended by the harness before the final judgement.", "4/C16"),
     "C17": ("exhaustive enumeration of the small script space under a gated/ungated schedule point + sampled hostile scripts, result oracle over recorded function outcomes",
             "All scripts with up to 4 functions over {nil entry, nil, error, Canceled} x {caller parked after spawning, free} are executed and judged; larger and cancelling scripts are sampled.",
             "Function outcomes and return stamps are recorded by the functions themselves; hangs are decided by quiescence.", "4/C17"),
+    "C18": ("job-side monitors (active count, run count, start order) + (queued,running) pair invariant on every returned/watched pair + WaitIdle return oracle over stamps + final quiescence",
+            "Limits 0/1/2/3/8/-1, several producers, batches with nil jobs, gated jobs, error channels delivering nil/error/close to WaitIdle; worker retire point perturbed.",
+            "Jobs stamp their own start/end; producers are serialised by the harness only for the limit-1 order check.", "4/C18"),
     "C19": ("differential monitoring against independent reference implementations over enumerated and seed-generated inputs",
             "All pad lengths/contents/capacities in range, every Unpad input up to 2 bytes, sampled longer inputs, string sets over a hostile alphabet, prng chunkings.",
             "Reference implementations are trivially small; inputs beyond the enumerated bounds are sampled.", "4/C19"),
